@@ -96,33 +96,59 @@ def explore(acc, execute, depth, cap=20000):
     return st
 
 
-def t_ordered(acc, fn, params, order):
-    """Runs a plain task function inside an instrumented worker under one fixed global set order
-    (order = 'canonical' or 'reversed'): every set iteration of the library then follows that order instead of
-    CPython's.  Used to give the input-space checks a second and third iteration order at small cost."""
+OBJ_ORDERS = tuple('obj%d%s' % (b, f) for b in range(5) for f in ('', 'f'))
+
+
+def t_ordered(acc, fn, params, order, knobs=None):
+    """Runs a plain task function inside an instrumented worker under one fixed set-order policy:
+    'canonical' / 'reversed' - one global order for every set iteration of the library;
+    'obj<b>' / 'obj<b>f'    - per-object orders: the i-th distinct set object seen during one library call is iterated
+                              in canonical order iff bit b of i is 0 (f: 1).  Over b = 0..4 with both polarities, any two
+                              set objects among the first 32 of a call are iterated in opposite orders at least twice -
+                              code that pairs up positions of two equal sets (a set and its copy) is exposed.
+    knobs: presentation knobs of mc.spaces (dict), applied for the duration of the task."""
     import importlib
     mod, name = fn.split(':')
     f = getattr(importlib.import_module(mod), name)
-    instr.S.reset(boost=(), budget=10 ** 15, native=False, record=False, reverse=(order == 'reversed'))
+    kw = {}
+    if order.startswith('obj'):
+        kw = {'objbit': int(order[3]), 'objflip': 1 if order.endswith('f') else 0}
+        core.NEWCALL = instr.S.newcall
+    instr.S.reset(boost=(), budget=10 ** 15, native=(order == 'native'), record=False, reverse=(order == 'reversed'), **kw)
+    saved = dict(spaces.KNOBS)
+    spaces.KNOBS.update(knobs or {})
     try:
         f(acc, **params)
     finally:
         instr.S.reset()
-    acc.c['executions_under_the_%s_global_order' % order] += acc.transitions
+        core.NEWCALL = None
+        spaces.KNOBS.clear()
+        spaces.KNOBS.update(saved)
+    label = order + (' ' + ','.join('%s=%s' % kv for kv in sorted((knobs or {}).items())) if knobs else '')
+    acc.c['executions_under_%s' % label.replace(' ', '_')] += acc.transitions
     for lst in acc.viols.values():
         for rec in lst:
             if isinstance(rec.get('instance'), dict):
-                rec['instance']['set_order'] = order + ' global order (instrumented)'
+                if order != 'native':
+                    rec['instance']['set_order'] = order + ' order policy (instrumented)'
+                if knobs:
+                    rec['instance']['presentation'] = dict(knobs)
             rp = rec.get('repro')
             if rp and rp.get('fn') != 'mc.props.common:t_ordered':
-                rec['repro'] = {'fn': 'mc.props.common:t_ordered', 'mode': 'instr', 'params': {'fn': rp['fn'], 'params': rp['params'], 'order': order}}
+                rec['repro'] = {'fn': 'mc.props.common:t_ordered', 'mode': 'instr', 'params': {'fn': rp['fn'], 'params': rp['params'], 'order': order, 'knobs': knobs}}
 
 
-def ordered_copies(tasks, select, orders=('canonical', 'reversed')):
-    """For every plain task accepted by select(name, params) add copies that run under the given global orders."""
+def ordered_copies(tasks, select, orders=('canonical', 'reversed'), knobs=None):
+    """For every plain task accepted by select(name, params) add copies that run under the given order policies
+    (and presentation knobs)."""
     out = []
     for (mode, name, params) in tasks:
         if mode == 'plain' and select(name, params):
             for o in orders:
-                out.append(('instr', 'mc.props.common:t_ordered', {'fn': name, 'params': params, 'order': o}))
+                out.append(('instr', 'mc.props.common:t_ordered', {'fn': name, 'params': params, 'order': o, 'knobs': knobs}))
     return out
+
+
+def knob_copies(tasks, select, knobs):
+    """Plain-mode copies of tasks under presentation knobs (CPython's own set order, instrumented worker, native=True)."""
+    return ordered_copies(tasks, select, orders=('native',), knobs=knobs)
